@@ -223,17 +223,19 @@ def select_where_projection(prop, tier, seed):
 def join_pairs_job(prop, tier, seed):
     As = [[], [['k1', 'a']], [['k1', 'a'], ['k2', 'b'], ['k1', 'c']], [['k3', 'a'], ['k1', 'b']], [['1', 'a'], ['2', 'b'], ['3', 'k1']]]
     Bs = [[], [['k1', 'p']], [['k1', 'p'], ['k1', 'q'], ['k2', 'r']], [['k2', 'p', 'extra'], ['k1', 'q']], [['k9', 'p'], ['k8', 'k1']],
-          [['a', 'k1'], ['b', 'k2'], ['k1', 'k1']]]
+          [['a', 'k1'], ['b', 'k2'], ['k1', 'k1']],
+          # record numbers as join keys: integer cells pair with NR, text digits never do
+          [[3, 'c'], [1, 'a'], [3, 'cc'], [7, 'z']], [['1', 'one'], ['2', 'two'], [2, 'int']]]
     qs = []
     for kind in ('JOIN', 'INNER JOIN', 'LEFT JOIN', 'LEFT OUTER JOIN', 'STRICT LEFT JOIN'):
         for pairs in ([('a1', 'b1')], [('a1', 'b1'), ('a2', 'b2')], [('NR', 'bNR')], [('a1', 'b1'), ('NR', 'bNR')], [('a1', 'b2')],
-                      [('aNR', 'bNR'), ('a1', 'b1')], [('a2', 'b1')]):
+                      [('aNR', 'bNR'), ('a1', 'b1')], [('a2', 'b1')], [('NR', 'b1')], [('aNR', 'b1'), ('a2', 'b2')]):
             for items in ([('a1', None), ('b2', None)], [('*', None)], [('a2', None), ('b1', None), ('bNR', None), ('NR', None)]):
                 qs.append(Query(items=items, join=(kind, pairs)))
             qs.append(Query(items=[('a1', None), ('b2', None)], join=(kind, pairs), where='b2 is not None', order='a1', desc=True))
             qs.append(Query(update=[(2, 'b2')], join=(kind, pairs)))
     cases = [(q, A, B) for A in As for B in Bs for q in qs]
-    r = _run(cases, '5 A tables x 6 B tables (empty, duplicate keys, ragged, unmatched) x 5 join kinds x 7 key lists (1-2 keys, NR/bNR components) x select/star/where+order/update shapes; real query_table vs reference pairing', tier, seed, 5000)
+    r = _run(cases, '5 A tables x 8 B tables (empty, duplicate keys, ragged, unmatched, integer keys) x 5 join kinds x 9 key lists (1-2 keys, NR/bNR components, NR against a B field) x select/star/where+order/update shapes; real query_table vs reference pairing', tier, seed, 5000)
     r['job'] = 'join_pairs'
     return r
 
